@@ -10,12 +10,14 @@ cp $wt/demo.rs $dst/demo.rs 2>/dev/null || cp $wt/tests/$demo.rs $dst/demo.rs
 cp $wt/REPORT.md $dst/REPORT_by_author.md 2>/dev/null
 export CARGO_TARGET_DIR=$wt/target
 cd $wt
+# (git stash is shared between worktrees: never use it here) make sure exactly the author's patch is applied
+git checkout -q -- src gsd-parser/src && git apply mutant.diff
 echo "== demo WITH change (expected: FAIL)"
 cargo test --offline --test $demo 2>&1 | grep -E "^test result|FAILED|panicked" | head -5
-git stash push -q -- src gsd-parser/src
+git checkout -q -- src gsd-parser/src
 echo "== demo WITHOUT change (expected: ok)"
 cargo test --offline --test $demo 2>&1 | grep -E "^test result" | head -3
-git stash pop -q
+git apply mutant.diff
 unset CARGO_TARGET_DIR
 echo "== repo suite with the change applied in /repo"
 cd /repo && git apply $dst/patch.diff || { echo "APPLY FAILED"; exit 2; }
